@@ -103,6 +103,7 @@ CHECKS["C13"] = {
         {"pkg": "pure", "test": "TestC13Digest", "quick": 600, "thorough": 40000, "shards_quick": 3, "shards_thorough": 8},
         {"pkg": "pure", "test": "TestC13GossipSender", "quick": 100, "thorough": 3000, "shards_quick": 3, "shards_thorough": 8},
         {"pkg": "pure", "test": "TestC13Relay", "quick": 3000, "thorough": 300000, "shards_quick": 3, "shards_thorough": 8},
+        {"pkg": "pure", "test": "TestC13Receive", "quick": 1500, "thorough": 100000, "shards_quick": 3, "shards_thorough": 8},
         {"pkg": "pure", "test": "TestC13Hostile", "quick": 40000, "thorough": 1500000, "shards_quick": 6, "shards_thorough": 16},
         {"pkg": "fuzz", "fuzz": "FuzzHandlePacket", "quick": 1, "thorough": 1, "fuzztime_thorough": 150, "workers": 16},
         {"pkg": "fuzz", "fuzz": "FuzzHandleStream", "quick": 1, "thorough": 1, "fuzztime_thorough": 150, "workers": 16},
